@@ -696,7 +696,9 @@ def reset_builder():
     from neuroml.hdf5.NetworkBuilder import NetworkBuilder as NB
     for k in ("populations", "projections", "projection_syns", "projection_types", "projection_syns_pre", "input_lists",
               "weightDelays"):
-        getattr(NB, k).clear()
+        d = getattr(NB, k, None)          # (C07's repair moves these tables to the instance)
+        if isinstance(d, dict):
+            d.clear()
 
 
 def load_real(path):
@@ -1040,6 +1042,14 @@ def check_extras(spec, doc2):
     return out
 
 
+def show(v):
+    if isinstance(v, F):
+        return str(v)
+    if isinstance(v, list):
+        return [show(x) for x in v]
+    return v
+
+
 def oracle(ctx, spec, before, werr, doc2, lerr, after):
     """the full property on the real code. before/after: Doc JSON of the real objects"""
     case = {"spec": spec}
@@ -1071,7 +1081,7 @@ def oracle(ctx, spec, before, werr, doc2, lerr, after):
     keys = {}
     for (sec, owner, field, va, vb) in diffs:
         k = classify(spec, sec, owner, field, va, vb)
-        keys.setdefault(k, "%s %s field %s: expected %s, loaded %s" % (sec, owner, field, va, vb))
+        keys.setdefault(k, "%s %s field %s: expected %r, loaded %r" % (sec, owner, field, show(va), show(vb)))
     if topa != topb:
         extra = [t for t in topb if t not in topa]
         missing = [t for t in topa if t not in topb]
@@ -1387,7 +1397,7 @@ CORPUS = _corpus()
 
 
 def run(ctx):
-    n = ctx.n(110, 900) * ctx.search_mult
+    n = ctx.n(300, 2400) * ctx.search_mult
     specs = [json.loads(json.dumps(c)) for c in CORPUS]
     big = ctx.tier == "thorough"
     for i in range(n):
@@ -1400,6 +1410,11 @@ def run(ctx):
 def replay(ctx, payload):
     case = payload.get("case", payload)
     spec = case["spec"] if "spec" in case else case
-    run_cases(ctx, [spec])
-    return {"fails": bool(ctx.failures or ctx.corr_disagreements), "failures": ctx.failures,
+    import contextlib
+    with contextlib.redirect_stdout(io.StringIO()), contextlib.redirect_stderr(io.StringIO()):   # the library prints
+        run_cases(ctx, [spec])
+    known = fw.known_findings("C05")
+    viol = [f for f in ctx.failures if f["key"] not in known]
+    return {"fails": bool(viol or ctx.corr_disagreements), "failures": viol,
+            "known_findings": sorted({f["key"] for f in ctx.failures if f["key"] in known}),
             "disagreements": ctx.corr_disagreements[:3]}
